@@ -9,7 +9,6 @@ import (
 	"path/filepath"
 	"strings"
 
-	"github.com/JunNishimura/Goit/internal/file"
 	"github.com/spf13/cobra"
 )
 
@@ -55,32 +54,14 @@ var rmCmd = &cobra.Command{
 
 		// remove file from working tree and index
 		for _, arg := range args {
-			// if the arg is directory
-			if f, err := os.Stat(arg); err == nil && f.IsDir() {
-				// get file paths under directory
-				absPath, err := filepath.Abs(arg)
-				if err != nil {
-					return fmt.Errorf("fail to convert %s to abs path: %w", arg, err)
-				}
-				filePaths, err := file.GetFilePathsUnderDirectory(absPath)
-				if err != nil {
-					return fmt.Errorf("fail to get file paths under directory: %w", err)
-				}
-
-				// filePaths are defined as abs paths
-				// so, translate them to rel paths
+			// if the arg is a tracked directory, remove the tracked files beneath it
+			// (the directory is looked up in the index, not in the file system:
+			// untracked files must stay and tracked files may already be deleted)
+			cleanedDir := strings.ReplaceAll(filepath.Clean(arg), `\`, "/")
+			if client.Idx.IsRegisteredAsDirectory(cleanedDir) {
 				var relPaths []string
-				curPath, err := os.Getwd()
-				if err != nil {
-					return fmt.Errorf("fail to get current directory: %w", err)
-				}
-				for _, filePath := range filePaths {
-					relPath, err := filepath.Rel(curPath, filePath)
-					if err != nil {
-						return fmt.Errorf("fail to get relative path: %w", err)
-					}
-					cleanedRelPath := strings.ReplaceAll(relPath, `\`, "/")
-					relPaths = append(relPaths, cleanedRelPath)
+				for _, entry := range client.Idx.GetEntriesByDirectory(cleanedDir) {
+					relPaths = append(relPaths, string(entry.Path))
 				}
 
 				// remove
